@@ -18,6 +18,7 @@ type HSpec struct {
 	Thorough      map[string]int
 	Unwind        [2]int   // loop bound quick/thorough
 	Budget        [2]int   // wall-clock budget in seconds quick/thorough
+	ThoroughOnly  bool     // not run in the quick tier
 	Models        []string // "lib.Func=vpModelFunc" replacements
 	FixedMapOrder bool     // range over Go maps in insertion order only (order-sensitivity is decided elsewhere; stated in evidence)
 	Validate      []string // native model validations to run (names registered with vpRegisterModelCheck)
@@ -89,6 +90,9 @@ func runProperty(spec PropSpec, tier string, seed, workers int, solver string) *
 	loaded := map[string]*Loaded{}
 	loadErrs := map[string]string{}
 	for _, hs := range spec.Harnesses {
+		if hs.ThoroughOnly && ti == 0 {
+			continue
+		}
 		res := &HResult{Spec: hs}
 		run.Results = append(run.Results, res)
 		res.Params = hs.Quick
